@@ -72,6 +72,21 @@ def inject(scratch_repo, verif, injections):
                 raise InjectError("lost anchor: %s in %s" % (rx, f))
             open(p, "w").write(new)
             log.append("lint line rewritten in %s (%d)" % (f, n))
+        elif "copy_dir" in inj:
+            # an external harness crate: lives next to the scratch copy of the repository, path-depends on it
+            sdir, dst = inj["copy_dir"]
+            dstp = os.path.normpath(os.path.join(scratch_repo, dst))
+            if os.path.isdir(dstp):
+                shutil.rmtree(dstp)
+            shutil.copytree(os.path.join(verif, sdir), dstp, ignore=shutil.ignore_patterns("target", "Cargo.lock"))
+            log.append("copied harness crate %s -> %s" % (sdir, dst))
+        elif "lockfile" in inj:
+            d = os.path.normpath(os.path.join(scratch_repo, inj["lockfile"]))
+            e = dict(os.environ); e["CARGO_NET_OFFLINE"] = "true"; e.pop("RUSTUP_TOOLCHAIN", None)
+            p = subprocess.run(["cargo", "generate-lockfile", "--offline"], cwd=d, env=e, capture_output=True, text=True)
+            if p.returncode != 0:
+                raise InjectError("cargo generate-lockfile failed in %s: %s" % (d, p.stderr[-400:]))
+            log.append("generated Cargo.lock offline in %s" % inj["lockfile"])
         elif "write" in inj:
             f, text = inj["write"]
             p = os.path.join(scratch_repo, f)
